@@ -11,3 +11,4 @@ CONSTANTS
   MaxProbes = 2
   DotNameHandled = FALSE
   RpcPosCheckedFirst = FALSE
+  Utf8LabelsHandled = FALSE
